@@ -22,6 +22,7 @@ pub mod c18;
 pub mod c18_lab;
 pub mod c19;
 pub mod c20;
+pub mod h2flow;
 
 pub fn dispatch(args: &Args) -> i32 {
     match args.id.as_str() {
